@@ -332,17 +332,27 @@ def mod(a, b):
     return a % b
 
 
+def _is_nan(x):
+    return type(x).__name__ == '_Special' and getattr(x, 'name', '') == 'nan'
+
+
 def lt(a, b):
+    if _is_nan(a) or _is_nan(b):
+        return False            # every ordered comparison with nan is false
     a, b = _num2(a, b)
     return a < b
 
 
 def le(a, b):
+    if _is_nan(a) or _is_nan(b):
+        return False
     a, b = _num2(a, b)
     return a <= b
 
 
 def eq(a, b):
+    if _is_nan(a) or _is_nan(b):
+        return False            # nan == x is false for every x (including nan)
     if a is None or b is None:
         if isinstance(a, Opt):
             return a.isnone
